@@ -429,7 +429,9 @@ def run_cache_model(tier, seed, rd, fxv, split_remove=False, emit_one_in=1, time
         fh.write("CONSTANTS\n  Programs <- ProgsLit\n  GenTs <- Gts\n  SplitRemove = %s\n  ClearSnapshot = FALSE\n  EmitOneIn = %d\nSPECIFICATION Spec\n"
                  "CHECK_DEADLOCK FALSE\nINVARIANTS MemExact UniqueKey NoFlags EvLockFree EmitBehaviour\n"
                  % ("TRUE" if split_remove else "FALSE", emit_one_in))
-    r = v.run_tlc("CCRun", "CCRun.cfg", rd, workers=8, timeout=timeout, coverage=False, xmx="8g", spec_dir=sd)
+    # thorough: the three-thread programs make tens of millions of histories (the history is part of the state)
+    r = v.run_tlc("CCRun", "CCRun.cfg", rd, workers=8 if tier == "quick" else 12, timeout=timeout, coverage=False,
+                  xmx="8g" if tier == "quick" else "28g", spec_dir=sd)
     # behaviours stay where TLC printed them: only the program name and the position of each line are kept here (the
     # thorough tier prints millions of behaviours; decoding all of them took tens of gigabytes), `decode_behaviour`
     # turns the sampled ones into records
@@ -451,7 +453,8 @@ def cache_model_part(tier, seed, rd, fxv):
     judged by TraceCache.tla.  Returns (violations, info)."""
     import scengine
     viol = []
-    r, beh, mprogs, src = run_cache_model(tier, seed, rd, fxv, emit_one_in=8 if tier == "quick" else 1)
+    r, beh, mprogs, src = run_cache_model(tier, seed, rd, fxv, emit_one_in=8 if tier == "quick" else 16,
+                                           timeout=900 if tier == "quick" else 2400)
     if r.timeout or (r.error and not r.violation):
         raise v.ToolError("CacheConc model checking failed: %s %s" % (r.error, r.out[-500:]))
     info = {"programs": len(mprogs), "model_states": r.distinct, "model_behaviours_emitted": len(beh), "design_violation": r.violation}
